@@ -106,7 +106,7 @@ func (c *fchan) Recv(_ context.Context, h func(m net.Message)) {
 	c.registered <- struct{}{}
 }
 func (c *fchan) SetUnmarshaler(u func() net.TaggedUnmarshaler) { c.unmarshaler = u }
-func (c *fchan) SetFilter(net.BroadcastChannelFilter) error     { return nil }
+func (c *fchan) SetFilter(net.BroadcastChannelFilter) error    { return nil }
 func (c *fchan) deliver(m net.Message) {
 	c.mu.Lock()
 	hs := append([]func(m net.Message){}, c.handlers...)
@@ -139,10 +139,10 @@ func (fakeChain) Signing() chain.Signing { return signing }
 // proposal is a CoordinationProposal with a chosen action type.
 type proposal struct{ action tbtc.WalletActionType }
 
-func (p *proposal) Marshal() ([]byte, error)           { return nil, nil }
-func (p *proposal) Unmarshal([]byte) error             { return nil }
-func (p *proposal) ActionType() tbtc.WalletActionType  { return p.action }
-func (p *proposal) ValidityBlocks() uint64             { return 1 }
+func (p *proposal) Marshal() ([]byte, error)          { return nil, nil }
+func (p *proposal) Unmarshal([]byte) error            { return nil }
+func (p *proposal) ActionType() tbtc.WalletActionType { return p.action }
+func (p *proposal) ValidityBlocks() uint64            { return 1 }
 
 // ---- op parsing -----------------------------------------------------------
 
@@ -587,12 +587,12 @@ func sortStrings(s []string) {
 // ---- generator ------------------------------------------------------------
 
 var variants = map[string][]string{
-	"mv":   {"-"},
-	"gjkr": {"epk/epk", "commit/shares", "commit/commitments", "accuse/accuse", "points/points", "paccuse/paccuse", "reveal/reveal"},
-	"bres": {"-"},
-	"tdkg": {"epk/epk", "symkey/epk", "tss1/tss1", "tss2/tss2", "tss3/tss3", "final/final", "epk/final", "tss3/epk"},
-	"tres": {"-"},
-	"tsig": {"epk/epk", "symkey/epk", "tss1/tss1", "tss2/tss5", "tss3/tss9", "tss4/epk", "tss5/tss5", "tss6/tss1", "tss7/tss9", "tss8/epk", "tss9/tss9"},
+	"mv":    {"-"},
+	"gjkr":  {"epk/epk", "commit/shares", "commit/commitments", "accuse/accuse", "points/points", "paccuse/paccuse", "reveal/reveal"},
+	"bres":  {"-"},
+	"tdkg":  {"epk/epk", "symkey/epk", "tss1/tss1", "tss2/tss2", "tss3/tss3", "final/final", "epk/final", "tss3/epk"},
+	"tres":  {"-"},
+	"tsig":  {"epk/epk", "symkey/epk", "tss1/tss1", "tss2/tss5", "tss3/tss9", "tss4/epk", "tss5/tss5", "tss6/tss1", "tss7/tss9", "tss8/epk", "tss9/tss9"},
 	"inact": {"-"},
 	"ann":   {"-"},
 	"coord": {"-"},
